@@ -29,7 +29,7 @@ if os.path.exists(demo_go):
     names = re.findall(r'func (Test\w+)', open(demo_go).read())
     runpat = '^(' + '|'.join(names) + ')$'
     shutil.copy(demo_go, os.path.join(wt, 'zz_seed_demo_test.go'))
-    democmd = "go test -vet=off -count=1 -run '%s' ." % runpat
+    democmd = "go test %s-vet=off -count=1 -run '%s' ." % (os.environ.get('DEMO_FLAGS', '') + ' ' if os.environ.get('DEMO_FLAGS') else '', runpat)
     good = good and step('demo fails with patch', democmd, False)
     run('git apply -R ' + patch)
     good = good and step('demo passes without patch', democmd, True)
